@@ -9,6 +9,11 @@
 //     and the match is complete once the tree has been cleaned up and destroyed (balance);
 //  L  nesting: successful-init epochs [init_ok..cleanup] of all nodes are closed in LIFO order, and so are
 //     the successful-start epochs [start_ok..stop]  ("stop/cleanup in exactly the reverse order");
+//  T  tear-down order ("stop and cleanup run in exactly the reverse order" of init...start = ALL stops, then ALL cleanups):
+//     no module's onCleanup runs while one of its ancestors still has an open start epoch (children are never cleaned
+//     up below a running ancestor), and within one cleanup() call on the root / destruction / Main() phase no onStop
+//     runs after an onCleanup.  Roll-backs stay green: a roll-back inside initialize() only cleans up below ancestors
+//     that are not started, a roll-back inside start() only stops;
 //  N  a child's init/cleanup hook runs only while its parent has an open init epoch, a child's start/stop
 //     hook only while its parent has an open start epoch ("parent before children, children before parent");
 //  F  within one call on the root the init hooks (and the start hooks) that run, run in pre-order
@@ -171,6 +176,7 @@ struct Flags {   // what a case exercised (class labels / non-trivial rule)
   bool opt_fail_then_sibling_continues = false;
   bool cfg_missing_hit = false, retry_succeeds = false, reinit_after_cleanup = false, reached_running = false;
   bool noop_call = false, call_failed = false;
+  bool teardown_of_running_tree = false;   // cleanup()/destruction of a started tree without an explicit stop()
   bool nontrivial() const { return req_fail_after_ok_sibling_init || req_fail_after_ok_sibling_start || opt_halfway_init || opt_halfway_start; }
 };
 
@@ -193,6 +199,8 @@ class Oracle {
     st_before_ = st_;
     seg_init_.assign(n, -1); seg_start_.assign(n, -1);
     int last_init_pre = -1, last_start_pre = -1;
+    int cleanup_seen = -1;      // last node cleaned up in this call
+    if ((call == C_CLEANUP || call == C_DESTROY) && st_[0] == RUNNING) flags.teardown_of_running_tree = true;
     size_t first = pos_;
     for (; pos_ < log.size(); ++pos_) {
       const Ev &e = log[pos_];
@@ -230,6 +238,8 @@ class Oracle {
         case STOP:
           if (st_[x] != RUNNING) return at(call, x, e.kind) + " for a module that is not started (no unmatched successful onStart)";
           if (p >= 0 && !parent_silent && st_[p] != RUNNING) return at(call, x, e.kind) + " after its parent " + nm(p) + " was already stopped (children must be stopped first)";
+          if (cleanup_seen >= 0 && (call == C_CLEANUP || call == C_DESTROY || call == C_WHOLE))
+            return at(call, x, e.kind) + " after onCleanup of " + nm(cleanup_seen) + " in the same tear-down: a running tree must be stopped completely (reverse start order) before any module is cleaned up";
           if (start_stack_.empty() || start_stack_.back() != x)
             return at(call, x, e.kind) + " out of order: " + (start_stack_.empty() ? std::string("?") : nm(start_stack_.back())) + " was started later and is still running (stop must be the exact reverse of start)";
           start_stack_.pop_back(); st_[x] = INITED;
@@ -237,6 +247,9 @@ class Oracle {
         case CLEANUP:
           if (st_[x] == RUNNING) return at(call, x, e.kind) + " while still started (its successful onStart was never matched by onStop)";
           if (st_[x] != INITED) return at(call, x, e.kind) + " without an unmatched successful onInit";
+          for (int a = p; a >= 0; a = t_.nodes[a].parent)
+            if (st_[a] == RUNNING) return at(call, x, e.kind) + " while its ancestor " + nm(a) + " is still started (onStop of " + nm(a) + " has not run yet): all stops must precede all cleanups";
+          cleanup_seen = x;
           if (p >= 0 && !parent_silent && st_[p] == NONE) return at(call, x, e.kind) + " after its parent " + nm(p) + " was already cleaned up (children must be cleaned up first)";
           if (init_stack_.empty() || init_stack_.back() != x)
             return at(call, x, e.kind) + " out of order: " + (init_stack_.empty() ? std::string("?") : nm(init_stack_.back())) + " was initialised later and is not yet cleaned up (cleanup must be the exact reverse of init)";
@@ -392,6 +405,7 @@ inline void apply_flags(const Flags &f, const TreeSpec &t, verif::CaseInfo &info
   info.cls_if(f.reinit_after_cleanup, "root_reinitialised");
   info.cls_if(f.reached_running, "root_reached_running");
   info.cls_if(f.noop_call, "out_of_order_or_repeated_call");
+  info.cls_if(f.teardown_of_running_tree, "cleanup_of_running_tree_without_explicit_stop");
   info.cls_if(f.call_failed, "root_call_returned_false");
   info.cls_if(t.nodes.size() >= 10, "nodes>=10");
   if (f.nontrivial()) info.nontrivial = true;
